@@ -4,6 +4,7 @@
 From Coq Require Import String.
 From Comdex Require Import Lib.Base Lib.Atomic Model.HookLang Gen.HookTable Model.Hooks Model.Sweep
      Model.Market Proofs.HooksProofs Proofs.MarketProofs.
+From Comdex Require Model.Liquidation.
 Local Open Scope Z_scope.
 
 (* ---- all-or-nothing, for EVERY body of an ApplyFuncIfNoError, every behaviour of the calls in
@@ -143,6 +144,15 @@ Theorem c15_sweep_slice_total :
 Proof. intros A zero l cap counter off batch. apply sweep_slice_no_panic. Qed.
 Print Assumptions c15_sweep_slice_total.
 
+(* after fix C15-F2 the window computed in int64 arithmetic is, on every int input, the window computed
+   over unbounded integers - the one C09's model (Model/Liquidation.v) reasons about: the wrap-around
+   of  offset + batchSize  no longer shows (before the fix this failed for off >= 1, off + batch > 2^63-1) *)
+Theorem c15_window_is_unbounded_window :
+  forall len off batch, len <= int_max -> off <= int_max -> batch <= int_max ->
+  sweep_window len off batch = Comdex.Model.Liquidation.sweep_window len off batch.
+Proof. exact sweep_window_unbounded. Qed.
+Print Assumptions c15_window_is_unbounded_window.
+
 (* the int() conversion of the stored uint64 values, as the model uses it *)
 Theorem c15_int_of_uint64 :
   forall u, (0 <= u <= int_max -> int_of_uint64 u = u) /\
@@ -263,11 +273,15 @@ Example c15_v2_surplusdebt_loop_continues :
   = Returned 2.
 Proof. vm_compute. reflexivity. Qed.
 
-(* the unit projection judged by the runner: a unit that reported failure with a visible coin
-   movement is a partial write (class 2), which holds_C15 rejects *)
-Example c15_unit_obs :
-  unit_obs_diff true [-5000; -5000; 0; 0] = 2 /\ holds_C15 true (unit_obs_diff true [-5000; -5000; 0; 0]) true = false /\
-  holds_C15 true (unit_obs_diff true [0; 0; 0; 0]) true = true /\ holds_C15 true (unit_obs_diff false [-5000; -5000; 1; 1]) true = true.
+(* the unit projection judged by the runner (values observed on the real code): a trigger that
+   reported failure with the lot gone from the collector is a partial write (class 2), which
+   holds_C15 rejects - also when the failure is not reported; nothing visible and the complete
+   surplus auction are accepted *)
+Example c15_trigger_obs :
+  trigger_obs_diff true (-5000) (-5000) 0 0 0 = 2 /\ holds_C15 true (trigger_obs_diff true (-5000) (-5000) 0 0 0) true = false /\
+  holds_C15 true (trigger_obs_diff false (-5000) (-5000) 0 0 0) true = false /\
+  holds_C15 true (trigger_obs_diff true 0 0 0 0 0) true = true /\
+  holds_C15 true (trigger_obs_diff false (-5000) (-5000) 1 1 1) true = true.
 Proof. vm_compute. repeat split; reflexivity. Qed.
 
 Example c15_wiring :
